@@ -241,6 +241,37 @@ def run(ctx):
     init = se.methods["__init__"]
     r3.check(any(isinstance(c, ast.Call) and call_name(c) == "_link_children" for c in walk_own(init.node)), "SurveyElement.__init__:_link_children",
              "constructor links children handed in directly", init.loc())
+    # the cache is filled by get_xpath and dropped only on re-parenting: it is valid because paths are only asked for
+    # once validation has passed (the names are then final for this render).  Validation itself never asks for a path:
+    # a path computed for an element that is about to be refused (and then renamed by the caller) stays cached.
+    vals = [f"{c.module.name}:{c.name}.validate" for c in repo.all_classes() if "validate" in c.methods and any(k.name == "SurveyElement" for k in it0.mro(c))]
+    # (closure over `self.m()` / `super().m()` / `x.validate()` calls inside the element classes and over plain function calls)
+    elem_classes = [c for c in repo.all_classes() if any(k.name == "SurveyElement" for k in it0.mro(c))]
+    by_name = {}
+    for c in elem_classes:
+        for mn, mf in c.methods.items():
+            by_name.setdefault(mn, []).append(mf)
+    todo = [mf for mf in by_name.get("validate", [])]
+    seen_v, fillers = set(), []
+    while todo:
+        mf = todo.pop()
+        if mf.fq in seen_v:
+            continue
+        seen_v.add(mf.fq)
+        for c in ast.walk(mf.node):
+            if not isinstance(c, ast.Call):
+                continue
+            cn = call_name(c)
+            if cn == "get_xpath":
+                fillers.append(f"{mf.qualname}:{norm(c)[:30]}")
+            elif isinstance(c.func, ast.Attribute) and (norm(c.func.value) in ("self", "super()") or cn == "validate"):
+                todo += by_name.get(cn, [])
+            elif isinstance(c.func, ast.Name):
+                r_ = repo.resolve_name(mf.module, cn)
+                if r_ and r_[0] == "func":
+                    todo.append(r_[1])
+    r3.check(bool(vals) and len(seen_v) >= 3 and not fillers, "validate():no path is computed", f"none of the {len(seen_v)} functions validation runs through asks for an element's path", se.methods["validate"].loc(),
+             why_fail=f"path computed during validation: {fillers}")
     rules.append(r3)
 
     # ------------------------------------------------------------------ R4
